@@ -90,7 +90,7 @@ def run(tier, seed):
         bad = [{"gamma": -0.01}, {"gamma": 1.0000001}, {"epsilon": 0.0}, {"epsilon": -1.0}, {"max_batch_size": 0}, {"checkpoint_frequency": -1},
                {"max_checkpoints": -1}, {"verbose": -1}, {"verbose": 5}]
         if kind in ("vi", "pi", "semi"):
-            bad.append({"convergence_test": "relative"})
+            bad += [{"convergence_test": "relative"}, {"convergence_test": "Span"}, {"convergence_test": "MAX_DIFF"}, {"convergence_test": ""}]
         if kind == "pi":
             bad.append({"max_eval_iter": 0})
         if kind == "periodic":
